@@ -242,13 +242,37 @@ func (f *frame) execInstr(in ssa.Instruction, cur *State) {
 		// abstracted: any (ok, key, value)
 		f.env[x] = vc.symbolic(cur, "next_"+x.Name(), x.Type(), false)
 	case *ssa.Defer:
-		if f.vc.deferOK(x) {
-			return
+		// defer unit (DESIGN.md §4.9): the deferred closure runs at RunDefers on the normal exit (recover() == nil);
+		// the panicking exit is the closure verified as its own unit under its own contract.
+		switch c := x.Call.Value.(type) {
+		case *ssa.MakeClosure:
+			binds := make([]Sym, len(c.Bindings))
+			for i, b := range c.Bindings {
+				binds[i] = f.val(b)
+			}
+			f.defers = append(f.defers, deferred{c.Fn.(*ssa.Function), binds})
+		case *ssa.Function:
+			if len(x.Call.Args) == 0 {
+				f.defers = append(f.defers, deferred{c, nil})
+			} else {
+				unsup("defer of a function with arguments in %s", f.fn.Name())
+			}
+		default:
+			unsup("defer of %T in %s", c, f.fn.Name())
 		}
-		unsup("defer in %s", f.fn.Name())
 	case *ssa.RunDefers:
-		// handled by defer units; a function whose defers are all accepted by deferOK runs them abstractly
-		f.vc.runDefers(f, cur)
+		for i := len(f.defers) - 1; i >= 0; i-- {
+			d := f.defers[i]
+			if cur.dead {
+				break
+			}
+			old := f.vc.recoverNil
+			f.vc.recoverNil = true
+			f.vc.noInlineLimit++
+			f.inlineCall(d.fn, nil, d.binds, cur, nil)
+			f.vc.noInlineLimit--
+			f.vc.recoverNil = old
+		}
 	case *ssa.Go, *ssa.Send, *ssa.Select:
 		vc.abstracted = append(vc.abstracted, fmt.Sprintf("%T at %s (heap havocked)", in, f.where(in.Pos())))
 		vc.havocKeys(cur, &writeSet{all: true})
@@ -892,7 +916,8 @@ func (f *frame) makeInterface(x *ssa.MakeInterface, cur *State) Sym {
 	src := x.X.Type()
 	if _, ok := types.Unalias(src).Underlying().(*types.Pointer); ok {
 		if s, ok2 := f.val(x.X).(sv); ok2 {
-			vc.recordDynType(s.t, src)
+			vc.needFun("dyntype", "(Int) Int")
+			vc.assume(cur, fmt.Sprintf("(=> (not (= %s 0)) (= (dyntype %s) %s))", s.t, s.t, vc.eng.typeID(src)))
 			return s
 		}
 	}
@@ -1007,6 +1032,22 @@ func (f *frame) typeAssert(x *ssa.TypeAssert, cur *State) {
 			f.env[x] = val
 		}
 		return
+	}
+	// non-LValue interfaces holding pointers: the interface value is the reference; its dynamic type is a
+	// function of the reference
+	if _, isPtr := types.Unalias(x.AssertedType).Underlying().(*types.Pointer); isPtr {
+		if v, ok := f.val(x.X).(sv); ok {
+			vc.needFun("dyntype", "(Int) Int")
+			okT := vc.define("taok", "Bool", fmt.Sprintf("(and (not (= %s 0)) (= (dyntype %s) %s))", v.t, v.t, vc.eng.typeID(x.AssertedType)))
+			if x.CommaOk {
+				val := vc.define("tav", "Int", fmt.Sprintf("(ite %s %s 0)", okT, v.t))
+				f.env[x] = tuv{[]Sym{sv{val}, sv{okT}}}
+			} else {
+				f.safe(cur, "assert", f.srcLabel(x.Pos()), okT, x.Pos(), "type assertion holds")
+				f.env[x] = sv{v.t}
+			}
+			return
+		}
 	}
 	// non-LValue interfaces: abstract the result
 	vc.abstracted = append(vc.abstracted, "type assertion on "+typeStr(x.X.Type())+" at "+f.where(x.Pos()))
